@@ -32,6 +32,7 @@ package gochannel
 //@   ghostfield promised bool
 //@   ghostfield gone bool
 //@   ownschan outputChannel, closing
+//@   rely old(s.closed) ==> s.closed [a-closed-subscription-stays-closed]
 //@   object-invariant s.ctx != nil && s.logger != nil && s.outputChannel != nil && s.closing != nil && !closeonly(s.outputChannel) [wired-at-creation]
 //@   invariant s.outputChannel != nil && s.closing != nil && !closeonly(s.outputChannel) [mon:sending:channels-exist]
 //@   invariant s.closed == closed(s.outputChannel) [mon:sending:closed-flag-tells-the-output-channel]
@@ -51,9 +52,11 @@ package gochannel
 //@   requires s != nil && msg != nil && s.ctx != nil
 //@   ghost strong gf(lastSent, s)
 //@   ghost set lastSent(s) = msgToSend @send:s.outputChannel
+//@   ghost mark acked(s, msg) @return when gf(lastSent, s) != nil && gf(lastSent, s).ackSentType == 1 && sends(s.outputChannel) > old(sends(s.outputChannel))
 //@   ghost set lastCtx(s) = msgToSend.ctx @send:s.outputChannel
 //@   nopanic
 //@   ensures (gf(lastSent, s) != nil && gf(lastSent, s).ackSentType == 1 && sends(s.outputChannel) > old(sends(s.outputChannel))) || s.closed || closed(s.closing) [returns-only-after-the-delivery-was-acked-or-the-subscription-is-closing]
+//@   ensures mark(acked, s, msg) || s.closed || closed(s.closing) [the-same-in-a-form-that-stays-true-a-delivery-of-this-message-to-this-subscription-was-acked-or-the-subscription-is-closing]
 //@   ensures sends(s.outputChannel) > old(sends(s.outputChannel)) ==> cancelled(gf(lastCtx, s)) [the-context-each-copy-was-delivered-with-is-cancelled-afterwards]
 //@   ensures msg.ackSentType == old(msg.ackSentType) || old(msg.ackSentType) == 0 [the-original-is-never-settled-here]
 //@   assert @send:s.outputChannel: msgToSend != nil && msgToSend != msg && fresh(msgToSend) && msgToSend.UUID == msg.UUID && msgToSend.Payload == msg.Payload && fresh(msgToSend.Metadata) && sameMetadata(msgToSend.Metadata, msg.Metadata) && msgToSend.ackSentType == 0 [every-delivery-is-a-fresh-equal-copy]
@@ -144,9 +147,11 @@ package gochannel
 //@   nopanic
 //@   ensures ncalls(STS) == old(ncalls(STS)) + 1 && sarg(STS, 0, old(ncalls(STS))) == subscriber && sarg(STS, 1, old(ncalls(STS))) == message [delivers-the-message-to-its-subscriber]
 //@   ensures wgtoken(wg) == 0 [reports-completion-exactly-once]
+//@   gives @wgdone:wg: mark(acked, subscriber, message) || subscriber.closed || closed(subscriber.closing) [reports-completion-only-when-its-delivery-was-acked-or-the-subscription-is-closing]
 
 //@ func (*GoChannel).sendMessage$1
 //@   ghost owns ackedBySubscribers
+//@   ghost joins wg: (*GoChannel).sendMessage$1$1
 //@   requires message != nil && ackedBySubscribers != nil && !closed(ackedBySubscribers) && closeonly(ackedBySubscribers)
 //@   requires forall i int :: 0 <= i && i < len(subscribers) ==> subscribers[i] != nil
 //@   nopanic
@@ -154,6 +159,7 @@ package gochannel
 //@   ensures forall i int :: 0 <= i && i < len(subscribers) ==> spawnfv("(*GoChannel).sendMessage$1$1", "subscriber", old(spawned("(*GoChannel).sendMessage$1$1")) + i) == subscribers[i] && spawnfv("(*GoChannel).sendMessage$1$1", "message", old(spawned("(*GoChannel).sendMessage$1$1")) + i) == message [the-i-th-sender-serves-the-i-th-subscriber-with-this-message]
 //@   ensures closed(ackedBySubscribers) [signals-completion-after-all-senders-finished]
 //@   assert @close:ackedBySubscribers: wg(wg) == 0 && spawned("(*GoChannel).sendMessage$1$1") == old(spawned("(*GoChannel).sendMessage$1$1")) + len(subscribers) [completion-is-signalled-only-when-every-sender-started-here-has-reported-back]
+//@   assert @close:ackedBySubscribers: forall i int :: 0 <= i && i < len(subscribers) ==> mark(acked, subscribers[i], message) || subscribers[i].closed || closed(subscribers[i].closing) [completion-is-signalled-only-when-every-subscription-of-the-snapshot-acked-the-message-or-is-closing]
 //@   inv loop 1: forall i int :: 0 <= i && i <= rangeindex ==> spawnfv("(*GoChannel).sendMessage$1$1", "subscriber", old(spawned("(*GoChannel).sendMessage$1$1")) + i) == subscribers[i] && spawnfv("(*GoChannel).sendMessage$1$1", "message", old(spawned("(*GoChannel).sendMessage$1$1")) + i) == message [senders-so-far]
 //@   inv loop 1: spawned("(*GoChannel).sendMessage$1$1") == old(spawned("(*GoChannel).sendMessage$1$1")) + rangeindex + 1 && wg != nil && !closed(ackedBySubscribers) && wgtoken(wg) == 0 [one-sender-per-visited-subscriber]
 //@   modifies closed(ackedBySubscribers)
